@@ -138,6 +138,8 @@ def schemas():
         'ord-modal-exist': ([M(Q('Existential', x, Fx)), L(Q('Universal', x, Neg(Fx))), Fa], b),
         'ord-modal-exist2': ([Fa, M(Q('Existential', x, O('Conjunction', Fx, Gx))), L(Q('Universal', x, O('MaterialConditional', Fx, Neg(Gx))))], b),
         'ord-modal-univ': ([L(Q('Universal', x, Fx)), M(Neg(Fa))], b),
+        'serial-two-box': ([M(L(a)), M(L(Neg(a)))], b),
+        'serial-two-box2': ([M(L(a)), M(L(b)), L(M(c))], M(O('Conjunction', a, b))),
         'ord-many-diamonds': ([L(M(a)), M(L(Neg(a))), M(b), M(c), M(A(3))], A(4)),
         'ord-many-diamonds2': ([L(M(a)), M(b), M(c), L(O('MaterialConditional', b, L(Neg(a))))], A(4)),
         'ord-ident-both': ([P(IDENT, ca, cb), P(IDENT, cb, ca), Fa], Fb),
